@@ -59,10 +59,17 @@ def pipeline_case(ctx, pred, ref, cfg, src):
     else:
         labs_p = set(np.unique(pred).tolist()) - {0}
         labs_r = set(np.unique(ref).tolist()) - {0}
-        if summ["num_ref_instances"] != len(labs_r):
-            fails.append(f"num_ref_instances {summ['num_ref_instances']} differs from the {len(labs_r)} reference labels")
+        if cfg["input"] == "SEMANTIC":
+            # the instances of a semantic map are its connected components (independent flood fill), not its label values
+            eff = cfg.get("backend") or ("cc3d" if pred.ndim >= 3 else "scipy")
+            labs_p = set(range(len(oracle.components(pred, eff == "cc3d", eff == "cc3d")))) if pred.size <= 4096 else None
+            labs_r = set(range(len(oracle.components(ref, eff == "cc3d", eff == "cc3d")))) if ref.size <= 4096 else None
+        if labs_r is None or labs_p is None:
+            pass
+        elif summ["num_ref_instances"] != len(labs_r):
+            fails.append(f"num_ref_instances {summ['num_ref_instances']} differs from the {len(labs_r)} reference instances of the input")
         one2one = cfg["matcher"]["kind"] == "naive" and not cfg["matcher"]["m2o"]
-        if (one2one or not labs_p or not labs_r) and summ["num_pred_instances"] != len(labs_p):
+        if labs_p is not None and labs_r is not None and (one2one or not labs_p or not labs_r) and summ["num_pred_instances"] != len(labs_p):
             fails.append(f"num_pred_instances {summ['num_pred_instances']} differs from the {len(labs_p)} prediction labels")
         nontriv = summ["tp"] >= 1 and dec is not None and summ["tp"] < min(summ["num_pred_instances"], summ["num_ref_instances"])
     ctx.case(inp, nontriv, sample={k: inp[k] for k in ("shape", "pred", "ref", "cfg")} if pred.size <= 16 else None)
@@ -207,6 +214,15 @@ def corpus(ctx):
             ctx.count("all_per_instance_values_equal")
             pipeline_case(ctx, pred, ref, E.mk_cfg("MATCHED", ["IOU", "DSC", "RVD", "ASSD"]), "corpus.equal-values")
             pipeline_case(ctx, pred, ref, E.mk_cfg("UNMATCHED", ["IOU", "DSC"], matcher=E.naive("IOU", (1, 4))), "corpus.equal-values")
+    # 3-D semantic input, one side empty, the other holding several components of one class: fp / fn are the component counts
+    v = np.zeros((4, 6, 6), np.uint8)
+    v[0, 0, 0] = v[2, 3, 3] = v[3, 5, 0:2] = 1
+    v[0, 4:6, 4:6] = 1
+    for p3, r3 in ((v, np.zeros_like(v)), (np.zeros_like(v), v)):
+        for b in (None, "cc3d", "scipy"):
+            ctx.count("one_side_empty_several_components_3d")
+            pipeline_case(ctx, p3, r3, E.mk_cfg("SEMANTIC", ["IOU", "DSC"], matcher=E.naive("IOU", (1, 2)), backend=b), "corpus.3d-one-side-empty")
+    single_group_matched_case(ctx)
     # unmatched input, exactly one side empty (fp/fn must not be exchanged)
     e = np.zeros((4, 4), np.uint8)
     f = e.copy()
@@ -215,6 +231,29 @@ def corpus(ctx):
     for p, r in ((e, f), (f, e), (e, e)):
         pipeline_case(ctx, p, r, E.mk_cfg("UNMATCHED", ["IOU", "DSC"], matcher=E.naive("IOU", (1, 2))), "corpus.one-side-empty")
         pipeline_case(ctx, p, r, E.mk_cfg("MATCHED", ["IOU", "DSC"]), "corpus.one-side-empty")
+
+
+def single_group_matched_case(ctx):
+    """matched input and a single-instance group: the instances carry their correspondence already, nothing is converted, and the
+    configured decision threshold decides — an organ predicted with IoU 1/4 against a threshold of 1/2 is fp and fn"""
+    ref = np.zeros((3, 12), np.uint8)
+    pred = np.zeros((3, 12), np.uint8)
+    ref[0, 0:8] = 1
+    pred[0, 6:10] = 1          # IoU 2/10
+    ref[2, 0:4], pred[2, 0:4] = 2, 2
+    groups = [{"name": "organ", "labels": [1], "merge": False, "single": True}, {"name": "lesions", "labels": [2], "merge": False, "single": False}]
+    cfg = E.mk_cfg("MATCHED", ["IOU", "DSC"], decision=["IOU", {"q": [1, 2]}])
+    res = E.run_impl(cfg, pred, ref, groups=groups)
+    inp = {"shape": [3, 12], "dtype": "uint8", "pred": gen.arr_json(pred), "ref": gen.arr_json(ref), "cfg": cfg, "groups": groups, "single_group_matched": True}
+    ctx.case(inp, True)
+    ctx.count("single_instance_group_with_matched_input")
+    if isinstance(res, str):
+        ctx.violation(f"grouped evaluation raised {res}", inp, key={"kind": "raises"})
+        return
+    s = res["organ"]
+    if (s["tp"], s["fp"], s["fn"]) != (0, 1, 1) or (not isinstance(s["list_IOU"], str) and len(s["list_IOU"]) != 0):
+        ctx.violation(f"result bookkeeping inconsistent: matched input, single-instance group: the organ's IoU 0.2 fails the decision threshold 0.5 but tp/fp/fn = "
+                      f"{s['tp']}/{s['fp']}/{s['fn']} with IoU list {s['list_IOU']}", inp, impl=s, key={"kind": "bookkeeping"})
 
 
 def grouped_cases(ctx, n):
@@ -393,6 +432,9 @@ def replay(ctx, rec):
     i = rec["input"]
     if i.get("form") in ("direct+default-metric", "direct+metric", "re-evaluate-intermediate-pair"):
         modular_cases(ctx, 150)
+        return
+    if i.get("single_group_matched"):
+        single_group_matched_case(ctx)
         return
     if "variants" in i:
         dt = np.dtype(i["dtype"])
